@@ -345,18 +345,58 @@ def check(fx, rep, tier):
                 desc = "a missing counter is not read as 0"
         rep.oblige(ok, "R03.3", "at-limit-normal-form", F.loc(avl["span"]), f"at_visit_limit is not `count >= maximum` with a missing counter read as 0 ({desc}): an instruction can be executed once more or once less than the limit allows", sample={"rule": "R03.3", "normal_form": desc})
         root = mv["hir"]["value"]
-        t = T.block_term({"stmts": [], "expr": root}, T.Env())
-        lits = sorted({s[1] for s in T.subterms(t) if s[0] == "lit" and str(s[1]).isdigit()})
-        adds = [c for c, _ in F.calls(root) if (F.callee_def(c) or "").split("::")[-1] in ("saturating_add", "wrapping_add", "checked_add")] + [n for n, _ in F.walk(root) if n.get("k") in ("Binary", "AssignOp") and n.get("op") in ("Add", "AddAssign")]
-        closure_lits = []
-        for n, _ in F.walk(root):
-            if n.get("k") == "Closure":
-                for m, _ in F.walk(n["body"]):
-                    if m.get("k") == "Lit" and m["value"].get("lit") == "int":
-                        closure_lits.append(str(m["value"]["v"]))
-        ins = [c for c, _ in F.calls(root) if (F.callee_def(c) or "").split("::")[-1] in ("or_insert", "insert")]
-        ins_one = all(T.term(c["args"][-1], T.Env()) == ("lit", "1") for c in ins) and ins
-        rep.oblige(bool(adds) and closure_lits == ["1"] and bool(ins_one), "R03.3", "mark-adds-one", F.loc(mv["span"]), f"mark_visited does not add exactly one to the counter (increments by {closure_lits or '?'}, first visit recorded as {[T.short(T.term(c['args'][-1], T.Env())) for c in ins]})")
+
+        def add_literal(node):
+            """the literal d of `*c = c.saturating_add(d)` / `*c += d` / `*c = *c + d` inside node (None if not exactly one such)"""
+            ds = []
+            for m, _ in F.walk(node):
+                if m.get("k") == "MethodCall" and m["method"] in ("saturating_add", "wrapping_add") and m["args"]:
+                    a_ = F.strip(m["args"][0])
+                    ds.append(a_["value"]["v"] if a_.get("k") == "Lit" else None)
+                elif m.get("k") == "AssignOp" and m.get("op") == "AddAssign":
+                    a_ = F.strip(m["r"])
+                    ds.append(a_["value"]["v"] if a_.get("k") == "Lit" else None)
+                elif m.get("k") == "Binary" and m.get("op") == "Add":
+                    a_ = F.strip(m["r"])
+                    ds.append(a_["value"]["v"] if a_.get("k") == "Lit" else None)
+                elif (m.get("k") == "MethodCall" and "sub" in m["method"]) or (m.get("k") in ("AssignOp", "Binary") and m.get("op") in ("SubAssign", "Sub")):
+                    ds.append(None)
+            return str(ds[0]) if len(ds) == 1 and ds[0] is not None else None
+
+        ins = [(c, ps) for c, ps in F.calls(root) if c.get("k") == "MethodCall" and c["method"] in ("or_insert",) and c["args"]]
+        first = step = None
+        form = "?"
+        if len(ins) == 1:
+            c, ps = ins[0]
+            k0 = F.strip(c["args"][0])
+            k0 = str(k0["value"]["v"]) if k0.get("k") == "Lit" else None
+            chain, cur = [], F.strip(c["recv"])
+            while cur.get("k") == "MethodCall":
+                chain.append(cur)
+                cur = F.strip(cur["recv"])
+            mod = next((m for m in chain if m["method"] == "and_modify"), None)
+            if mod is not None:
+                # entry(k).and_modify(|c| c += d).or_insert(k0): a known counter gains d, an unknown one starts at k0
+                form = "and_modify/or_insert"
+                step = add_literal(mod["args"][0])
+                first = k0
+            else:
+                # let c = entry(k).or_insert(k0); *c += d: every counter gains d, an unknown one after starting at k0
+                form = "or_insert then update"
+                lid = None
+                for anc, key in reversed(ps):
+                    if anc.get("s") == "Let" and key == "init" and anc["pat"].get("p") == "Bind":
+                        lid = anc["pat"]["local"]
+                    break
+                ups = []
+                if lid is not None:
+                    for m, mps in F.walk(root):
+                        if m.get("k") in ("Assign", "AssignOp") and any(x.get("k") == "Path" and x.get("local") == lid for x, _ in F.walk(m["l"])) and not any(a_.get("k") in ("If", "Match", "Loop", "Closure") for a_, _ in mps):
+                            ups.append(m)
+                if len(ups) == 1:
+                    step = add_literal(ups[0])
+                    first = str(int(k0) + int(step)) if k0 is not None and step is not None and k0.isdigit() and step.isdigit() else None
+        rep.oblige(first == "1" and step == "1", "R03.3", "mark-adds-one", F.loc(mv["span"]), f"mark_visited does not add exactly one to the counter (form `{form}`: a known counter gains {step or '?'}, a first visit is recorded as {first or '?'})", sample={"rule": "R03.3", "form": form, "first_visit": first, "step": step})
     check_counter_keys(fx, rep, "R03.3")
     # main loop marks before executing
     en, eps = vm.exec_call
@@ -635,6 +675,18 @@ def check(fx, rep, tier):
                     if y.get("k") == "Path" and y.get("res") == "local":
                         opened.add(y["local"])
                         break
+        # ... also as a `match` (on one operand or on a tuple of them) with an arm for the hash
+        for x, _ in F.exprs(root, "Match"):
+            if "Desugar" in str(x.get("source", "")):
+                continue
+            if any(q.get("p") in ("Struct", "TupleStruct", "Path") and q.get("adt") == SVD_ and q.get("variant") == "Sha3" for a in x["arms"] for q, _ in F.walk(a["pat"])):
+                sc = F.strip(x["scrut"])
+                parts = sc["elems"] if sc.get("k") == "Tup" else [sc]
+                for part in parts:
+                    for y, _ in F.walk(part):
+                        if y.get("k") == "Path" and y.get("res") == "local":
+                            opened.add(y["local"])
+                            break
         if not opened:
             continue
         for st, sps in F.walk(root):
